@@ -248,7 +248,7 @@ func computeGramNil(c *Ctx, g *Gram, ctors map[string]*CtorSummary) *gramNil {
 
 func checkC05(c *Ctx) {
 	r, t := c.R, c.T
-	r.Explanation = "Decides on the grammar (proved in sync with the compiled parser), the constructors and the lexer: (1) CTOR-NIL: a fixpoint over the grammar actions computes which grammar symbols may carry a nil value after an error was recorded (a constructor's `return nil` is feasible unless it is guarded by a NodeType test that every producer of that argument satisfies) and which AST fields may therefore hold nil; every dereference of such a parameter or field inside a constructor must be dominated by a nil test — otherwise the parser panics and the recovered panic is reported as the position-less `unexpected error`; (2) NIL-WITH-ERR: every `return nil` of a constructor is preceded by addParseErr*, and ParsePipeline returns the converted first error whenever any was recorded, that test dominating the success return — so `neither tree nor error` is impossible; (3) LEX-CONTRACT: emit and errorf mark an item as scanned on all paths, every `return nil` of a state function is preceded by emit or errorf, NextItem emits EOF when no state is left, parser.Lex turns an ERROR item into a recorded error and ends the token stream; (4) LEX-PROGRESS: in the graph of state functions (edge = returned state) every edge is classified by a typestate (a rune consumed and not backed up, or an item emitted) and the sub-graph of non-progressing edges is acyclic, so the lexer cannot spin; (5) LEX-COVER: Lexer.start is written only by emit (to pos) and ignore, ignore is called only when skipping blanks, every item's text is input[start:pos] and its position start; (6) positions of parse errors come from the lexer's start or the look-ahead item and are converted by the parse's own PosCache. Not decided: termination of the goyacc driver (generated, trusted); run-time bounds of the string slicing in lex.go/strutil.go (listed as not covered)."
+	r.Explanation = "Decides on the grammar (proved in sync with the compiled parser), the constructors and the lexer: (1) CTOR-NIL: a fixpoint over the grammar actions computes which grammar symbols may carry a nil value after an error was recorded (a constructor's `return nil` is feasible unless it is guarded by a NodeType test that every producer of that argument satisfies) and which AST fields may therefore hold nil; every dereference of such a parameter or field inside a constructor must be dominated by a nil test — otherwise the parser panics and the recovered panic is reported as the position-less `unexpected error`; (2) NIL-WITH-ERR: every `return nil` of a constructor is preceded by addParseErr*, and ParsePipeline returns the converted first error whenever any was recorded, that test dominating the success return — so `neither tree nor error` is impossible; (3) LEX-CONTRACT: emit and errorf mark an item as scanned on all paths, every `return nil` of a state function is preceded by emit or errorf, NextItem emits EOF when no state is left, parser.Lex turns an ERROR item into a recorded error and ends the token stream; (4) LEX-PROGRESS: in the graph of state functions (edge = returned state) every edge is classified by a typestate (a rune consumed and not backed up, or an item emitted) and the sub-graph of non-progressing edges is acyclic, so the lexer cannot spin; (5) LEX-COVER: Lexer.start is written only by emit (to pos) and ignore, ignore is called only when skipping blanks, every item's text is input[start:pos] and its position start; (6) positions of parse errors come from the lexer's start or the look-ahead item and are converted by the parse's own PosCache. Not decided: termination of the goyacc driver (generated, trusted); run-time bounds of the string slicing in lex.go/strutil.go (listed as not covered). Also LEX-SKIP: a state function that advances the position by a constant without reading (the comment state) is entered only where strings.HasPrefix(input[pos:], S) with len(S) equal to that constant (or a peek of a one-byte rune) holds and the position has not moved since."
 	r.Trusted = []string{"goyacc-generated driver yyParserImpl.Parse (terminates, calls Lex once per token)", "unicode/utf8 decoding"}
 	g := c.requireGram()
 	if g == nil {
